@@ -165,7 +165,10 @@ impl<'a> Minimiser<'a> {
             let mut paths: Vec<String> = cur.versions.iter().flat_map(|t| t.iter().map(|f| f.path.clone())).collect();
             paths.sort();
             paths.dedup();
-            for p in paths.iter().rev() {
+            // (C06 re-partitions hold the same items in other files: dropping a path would remove
+            // different items per version, so there only chunks are dropped, by item identity)
+            let by_path = !(cur.property == "C06" && cur.versions.len() > 1);
+            for p in paths.iter().rev().filter(|_| by_path) {
                 let mut c = cur.clone();
                 for t in c.versions.iter_mut() {
                     t.retain(|f| &f.path != p);
@@ -187,22 +190,18 @@ impl<'a> Minimiser<'a> {
                     let mut ci = cur.versions[vi][fi].chunks.len();
                     while ci > 0 {
                         ci -= 1;
-                        if cur.versions[vi][fi].chunks.len() <= 1 {
-                            break;
-                        }
                         let mut c = cur.clone();
                         let removed = c.versions[vi][fi].chunks.remove(ci);
-                        // remove the same chunk text from the same file in the other versions, too
-                        let path = c.versions[vi][fi].path.clone();
+                        // remove the same item from the other versions, too, wherever it lives there
+                        let key = item_key(&removed);
                         for (vj, t) in c.versions.iter_mut().enumerate() {
                             if vj == vi {
                                 continue;
                             }
-                            for f in t.iter_mut().filter(|f| f.path == path) {
-                                if let Some(p) = f.chunks.iter().position(|x| *x == removed) {
-                                    if f.chunks.len() > 1 {
-                                        f.chunks.remove(p);
-                                    }
+                            'files: for f in t.iter_mut() {
+                                if let Some(p) = f.chunks.iter().position(|x| item_key(x) == key) {
+                                    f.chunks.remove(p);
+                                    break 'files;
                                 }
                             }
                         }
